@@ -14,7 +14,7 @@ from .. import core, sessions
 from ..models import dtw_ref
 
 PROP = "C14"
-TIERS = {"quick": 48000, "thorough": 2400000}
+TIERS = {"quick": 64000, "thorough": 3200000}
 BATCH = 500
 RULE = ("one evaluation = one generated history (2-3 client sessions, 6-40 ops: construct / kbest_matches(k) / kbest_matches_fast / best_match / "
         "align / reset / get_ith_value / late reads of SSMatches and SSMatch views) executed against real SubsequenceSearch objects that share "
@@ -24,7 +24,7 @@ COMPONENTS = {"real": ["subsequence/subsequencesearch.py (SubsequenceSearch, SSM
                        "dtw_cc.distance / lb_keogh (C engine, use_c)", "dtw_ndim.distance"],
               "stub": ["client sessions and their interleaving (seeded scheduler)", "reference model: exhaustive search with /verif/sim/models/dtw_ref.py"]}
 ASSUMPTIONS = ["bounds: query length 1..6, 1..10 candidates of length 1..8, values on a small grid (ties and duplicates on purpose)",
-               "thresholds are placed at least 1e-6 away from every true distance (the property excludes a rounding-width neighbourhood)",
+               "thresholds are placed at least 1e-4 away from every true distance, or exactly on one where it is an exactly representable integer",
                "index comparisons are tie-aware; comparisons against a fresh object compare counts and distances (rel. tol 1e-9: a cached answer may come from the other engine)"]
 TOL = 1e-9
 
@@ -86,6 +86,11 @@ def gen_history(st):
             return round(D[0] * 0.5, 6) if D[0] > 1e-3 else None
         if k == 2:
             return D[-1] + 1.0
+        if k == 3:
+            # exactly ON a distance, but only where every engine computes it exactly (integer grid, perfect square)
+            exact = [x for x in D if x == int(x) and x > 0]
+            if grid == 0 and exact:
+                return float(rng.choice(exact))
         i = rng.below(len(D))
         if i + 1 < len(D) and D[i + 1] - D[i] > 1e-4:
             return (D[i] + D[i + 1]) / 2
